@@ -3,6 +3,7 @@
 package main
 
 import (
+	"crypto/tls"
 	"bytes"
 	"context"
 	"encoding/json"
@@ -50,6 +51,9 @@ type c13Case struct {
 	// (its signing fails), which costs the Client its established connection while the other calls are under way.
 	// Send calls may fail from then on; the DialAndSend calls have their own connections and are judged as always.
 	DeadConn bool `json:"shared_connection_lost,omitempty"`
+	// StartTLS: the server offers STARTTLS, the policy is TLSMandatory and the Client got a tls.Config of the caller's
+	// that names no server (InsecureSkipVerify): every dial-up of the Client works with that one value
+	StartTLS bool `json:"starttls_with_callers_tls_config,omitempty"`
 }
 
 type c13Viol struct {
@@ -69,6 +73,8 @@ type c13Report struct {
 	MaxInFlight   int       `json:"max_in_flight"`
 	SumInFlight   int       `json:"sum_in_flight"`
 	SharedFailed  int       `json:"send_calls_failed_after_connection_loss,omitempty"`
+	CfgWritten    bool      `json:"callers_tls_config_written_to,omitempty"`
+	FirstDials    int       `json:"concurrent_first_dialups_of_fresh_clients,omitempty"`
 	CommitOrder   string    `json:"commit_order"`
 	Porcupine     string    `json:"porcupine"`
 	Ops           int       `json:"ops"`
@@ -119,6 +125,20 @@ func c13Run(c c13Case) c13Report {
 			sc.Auth = a.handler()
 			sc.Caps = func(int, bool) []string { return []string{"8BITMIME", "SMTPUTF8", "DSN", "AUTH " + c.Auth} }
 		}
+		if c.StartTLS {
+			sc.TLS = gen.ServerTLS(gen.TLS().Good, 0, 0)
+			inner := sc.Caps
+			sc.Caps = func(n int, on bool) []string {
+				caps := []string{"8BITMIME", "SMTPUTF8", "DSN"}
+				if inner != nil {
+					caps = inner(n, on)
+				}
+				if !on {
+					caps = append(append([]string{}, caps...), "STARTTLS")
+				}
+				return caps
+			}
+		}
 		return sc
 	}}
 	copts := []mail.Option{mail.WithDialContextFunc(farm.Dial), mail.WithTLSPolicy(mail.NoTLS), mail.WithTimeout(30 * time.Second), mail.WithHELO("client.verif.example")}
@@ -131,6 +151,11 @@ func c13Run(c c13Case) c13Report {
 			return farm.Dial(ctx, network, address)
 		}
 		copts = []mail.Option{mail.WithDialContextFunc(dial), mail.WithTLSPortPolicy(mail.TLSOpportunistic), mail.WithTimeout(30 * time.Second), mail.WithHELO("client.verif.example")}
+	}
+	var callerCfg *tls.Config
+	if c.StartTLS {
+		callerCfg = &tls.Config{InsecureSkipVerify: true, MinVersion: tls.VersionTLS12} // names no server; verification is not what this check is about
+		copts = append(copts, mail.WithTLSPolicy(mail.TLSMandatory), mail.WithTLSConfig(callerCfg))
 	}
 	if c.Auth != "" {
 		copts = append(copts, mail.WithSMTPAuth(authTypeNoEnc(c.Auth)), mail.WithUsername("c13user"), mail.WithPassword("c13-secret-pass"))
@@ -460,8 +485,81 @@ func c13Run(c c13Case) c13Report {
 			rep.Inconclusive = append(rep.Inconclusive, "porcupine timed out")
 		}
 	}
+	if c.StartTLS {
+		c13FirstDials(c, &rep, add)
+	}
+	if callerCfg != nil && callerCfg.ServerName != "" {
+		// not a violation by itself (the property speaks about races, which the detector judges): recorded as observation
+		rep.CfgWritten = true
+	}
 	rep.Done = true
 	return rep
+}
+
+// c13FirstDials: what a Client does once per lifetime (first use of a configuration value, lazily built state) only
+// meets concurrency in its very first dial-ups. So: many short-lived Clients, each with a tls.Config of its own that
+// names no server, each used by four goroutines at once for one small DialAndSend over STARTTLS.
+func c13FirstDials(c c13Case, rep *c13Report, add func(key, what, obs string)) {
+	rounds := 24
+	for round := 0; round < rounds; round++ {
+		farm := &refsmtp.Farm{NewConfig: func(int) *refsmtp.Config {
+			return &refsmtp.Config{AllowUTF8: true, TLS: gen.ServerTLS(gen.TLS().Good, 0, 0), Caps: func(_ int, on bool) []string {
+				if on {
+					return []string{"8BITMIME"}
+				}
+				return []string{"8BITMIME", "STARTTLS"}
+			}}
+		}}
+		cfg := &tls.Config{InsecureSkipVerify: true, MinVersion: tls.VersionTLS12}
+		cl, err := mail.NewClient(netHost, mail.WithDialContextFunc(farm.Dial), mail.WithTLSPolicy(mail.TLSMandatory), mail.WithTLSConfig(cfg), mail.WithTimeout(30*time.Second), mail.WithHELO("client.verif.example"))
+		if err != nil {
+			add("harness", "first-dials NewClient: "+err.Error(), "")
+			return
+		}
+		const n = 4
+		errs := make([]error, n)
+		var wg sync.WaitGroup
+		start := make(chan struct{})
+		for g := 0; g < n; g++ {
+			wg.Add(1)
+			go func(g int) {
+				defer wg.Done()
+				m, _ := simpleMsg(fmt.Sprintf("c13-first-%d-%d", round, g), fmt.Sprintf("f%d@sender.example", g), []string{fmt.Sprintf("f%d@rcpt.example", g)}, "quoted-printable", "first dial-ups of a Client\r\n")
+				<-start
+				errs[g] = cl.DialAndSend(m)
+			}(g)
+		}
+		close(start)
+		done := make(chan struct{})
+		go func() { wg.Wait(); close(done) }()
+		select {
+		case <-done:
+		case <-time.After(60 * time.Second):
+			rep.Inconclusive = append(rep.Inconclusive, "first dial-ups did not finish within 60 s")
+			farm.Shutdown()
+			return
+		}
+		farm.Shutdown()
+		sessions, _ := farm.Snapshot()
+		commits := 0
+		for _, s := range sessions {
+			_, cms, _ := s.Snapshot()
+			for _, cm := range cms {
+				if cm.Accepted && cm.Complete {
+					commits++
+				}
+			}
+		}
+		for g, e := range errs {
+			if e != nil {
+				add("send-returned-error", fmt.Sprintf("first dial-ups of a Client, goroutine %d: DialAndSend returned %v", g, e), "")
+			}
+		}
+		if commits != n {
+			add(fmt.Sprintf("first-dials-delivered-%d-of-%d", commits, n), fmt.Sprintf("%d concurrent first DialAndSend calls on a fresh Client: %d messages were committed", n, commits), "")
+		}
+		rep.FirstDials += n
+	}
 }
 
 var yieldCtr int64
@@ -491,6 +589,9 @@ func c13Child(args []string) int {
 	if len(args) > 8 {
 		c.DeadConn = args[8] == "deadconn"
 	}
+	if len(args) > 9 {
+		c.StartTLS = args[9] == "starttls"
+	}
 	rep := c13Run(c)
 	b, _ := json.Marshal(rep)
 	fmt.Printf("C13REPORT %s\n", b)
@@ -509,7 +610,7 @@ func runC13(r *ev.Run, rep *ev.ReplayDoc) ev.Summary {
 	}
 	exe, _ := os.Executable()
 	runChild := func(c c13Case) {
-		cmd := exec.Command(exe, "child", "c13", c.Mode, fmt.Sprint(c.G), fmt.Sprint(c.Rep), fmt.Sprint(c.Seed), c.Auth, map[bool]string{true: "smime", false: "plain"}[c.SMIME], map[bool]string{true: "fallback", false: "direct"}[c.Fallback], map[bool]string{true: "debuglog", false: "nolog"}[c.DebugLog], map[bool]string{true: "deadconn", false: "liveconn"}[c.DeadConn])
+		cmd := exec.Command(exe, "child", "c13", c.Mode, fmt.Sprint(c.G), fmt.Sprint(c.Rep), fmt.Sprint(c.Seed), c.Auth, map[bool]string{true: "smime", false: "plain"}[c.SMIME], map[bool]string{true: "fallback", false: "direct"}[c.Fallback], map[bool]string{true: "debuglog", false: "nolog"}[c.DebugLog], map[bool]string{true: "deadconn", false: "liveconn"}[c.DeadConn], map[bool]string{true: "starttls", false: "notls"}[c.StartTLS])
 		cmd.Env = os.Environ()
 		var outb, errb bytes.Buffer
 		cmd.Stdout, cmd.Stderr = &outb, &errb
@@ -573,6 +674,13 @@ func runC13(r *ev.Run, rep *ev.ReplayDoc) ev.Summary {
 		}
 		r.Max("max_sends_in_flight_at_a_commit", int64(cr.MaxInFlight))
 		r.Count("sum_in_flight_at_commits", int64(cr.SumInFlight))
+		if c.StartTLS {
+			r.Count("runs_over_starttls_with_a_shared_tls_config", 1)
+			r.Count("concurrent_first_dialups_of_fresh_clients", int64(cr.FirstDials))
+			if cr.CfgWritten {
+				r.Count("runs_in_which_the_callers_tls_config_was_written_to", 1)
+			}
+		}
 		if c.DeadConn {
 			r.Count("runs_with_shared_connection_lost", 1)
 			r.Count("send_calls_failed_after_connection_loss", int64(cr.SharedFailed))
@@ -624,6 +732,12 @@ func runC13(r *ev.Run, rep *ev.ReplayDoc) ev.Summary {
 				}
 				cs.DebugLog = (i+g/8)%4 == 2
 				cases = append(cases, cs)
+				if mode != "shared" && !cs.Fallback && (i+g/2)%2 == 0 {
+					// the same repetition over STARTTLS with a tls.Config of the caller's that every dial-up shares
+					tc := cs
+					tc.StartTLS, tc.DebugLog = true, false
+					cases = append(cases, tc)
+				}
 				if mode == "mixed" && g >= 8 && (i == 0 || i%3 == 1) {
 					// the same repetition with the shared connection lost half way
 					dc := cs
